@@ -15,6 +15,7 @@ RULE = (
     "in the second or in both positions, samples/treatments of the experiment space without data), D in 1..4 (sometimes 7, 8, 12), 2..6 sampler steps (plus fixed long chains: D 16..24, 60 steps on a small dataset, where the embedding scales reach their upper bound) under the default options (the generator handed over by set_rng, or in one case of four the one the constructor defaults leave), with "
     "reset_model calls and a second batch of observations between steps (the histories sampling.sample and repeated training produce); per step all 12 blocks are observed. Non-trivial = a checked draw for a coordinate with >=1 observation while some embedding is non-zero (from step 2 on); distinct = distinct "
     "case JSON; per-block draw counts are in counters."
+    ' Also: models holding 2**16+1 .. 2**18+5 observations (thorough up to 2**20+3): fitted-values and export clauses after every whole step.'
 )
 ASSUMPTIONS = [
     "conjugacy is asserted for observation noise, intercept scale tau0, embedding scales tau (multiplicative gamma process) and for the global treatment scales eta0/eta1/eta2 (given the local scales the sampler holds after the block: the prior precision of V[m] is phi[m]*eta, which the Gaussian-block oracle already pins); the local scales phi* and the auxiliary variables are checked for order, bounds and finiteness only (their hyper-prior is not documented beyond the code)",
@@ -64,6 +65,8 @@ _LONG_SCREEN = {"arity": 2, "control": "ctl", "ns": 2, "nt": 6, "observed": [], 
 def exhaustive(tier):
     # long chains with many embedding dimensions on a small dataset: the multiplicative embedding scales reach their upper bound
     # (1e6) only after some tens of sweeps - states no short history visits
+    for n_, D_ in [(2**17 + 6000, 2), (2**18 + 5, 1), (2**16 + 1, 3)] + ([(3 * 2**17 + 77, 2), (2**20 + 3, 1), (2**19 - 1, 2)] if tier != "quick" else []):
+        yield {"kind": "big_model", "n": n_, "D": D_, "steps": 3, "seed": n_ % 1000}
     for D, seed in ([(20, 1), (20, 2), (16, 3)] if tier == "quick" else [(20, s_) for s_ in range(1, 7)] + [(16, 3), (24, 4)]):
         yield {"screen": _LONG_SCREEN, "extra_samples": 0, "extra_treatments": seed % 2, "D": D, "steps": 60, "events": ["none"] * 6, "first_batch": 30, "seed": seed, "default_generator": False}
 
@@ -313,7 +316,44 @@ def _mvn_affine_check(seed, D):
         require(np.allclose(cov, Qinv, rtol=1e-6, atol=1e-8 * np.max(np.abs(Qinv))), "mvn.covariance." + variant, lambda: "A A^T = %r, Q^-1 = %r" % (cov.tolist(), Qinv.tolist()))
 
 
+def _check_big_model(case):
+    """a model holding a production-size number of observations (described by parameters): after every whole step the running
+    fitted values are those implied by the parameters and the exported sample reproduces them (the per-block conditionals are
+    decided on the small datasets; here only the clauses that are affordable at this size)"""
+    from batchie.data import ExperimentSpace, Screen
+    from batchie.models import sparse_combo as scm
+
+    n, D = case["n"], case["D"]
+    r = np.random.default_rng(case["seed"])
+    nt, ns = 12, 5
+    names = np.array(["t%02d" % i for i in range(nt)] + ["ctl"])
+    a = r.integers(0, nt, size=n)
+    b = (a + 1 + r.integers(0, nt, size=n)) % (nt + 1)  # another treatment, or (one row in thirteen) the control
+    doses = np.where(np.stack([a, b], axis=1) == nt, 0.0, 1.0)
+    screen = Screen(treatment_names=np.stack([names[a], names[b]], axis=1), treatment_doses=doses, observations=r.uniform(0.05, 0.95, size=n), observation_mask=np.ones(n, dtype=bool), sample_names=np.array(["s%d" % i for i in range(ns)])[r.integers(0, ns, size=n)], plate_names=np.array(["p%d" % i for i in range(9)])[r.integers(0, 9, size=n)], control_treatment_name="ctl")
+    model = scm.SparseDrugCombo(experiment_space=ExperimentSpace.from_screen(screen), n_embedding_dimensions=D)
+    model.add_observations(screen)
+    model.set_rng(np.random.default_rng(case["seed"] + 1))
+    wm = attach(model, "wrapped_model")
+    for step in range(case["steps"]):
+        with np.errstate(all="ignore"):
+            model.step()
+        s_ = G.State(wm)
+        require(s_.n == n, "big.holds_all_observations", lambda: "the model holds %d of the %d observations it was given" % (s_.n, n))
+        mu = G.fitted(s_)
+        Mu = np.asarray(wm.Mu, dtype=float)
+        tol = 1e-3 * (np.abs(mu) + 1.0 / np.sqrt(s_.prec)) + 1e-4
+        bad = np.flatnonzero(~(np.abs(Mu - mu) <= tol)) if Mu.shape == mu.shape else np.arange(1)
+        require(Mu.shape == mu.shape and bad.size == 0, "big.fitted_values", lambda: "%d observations, step %d: the running fitted values of %d observations (first: row %d) differ from those implied by the parameters by up to %r" % (n, step + 1, bad.size, int(bad[0]), float(np.max(np.abs(Mu - mu))) if Mu.shape == mu.shape else None))
+        pred = np.asarray(model.get_model_state().predict_conditional_mean(screen), dtype=float)
+        bad = np.flatnonzero(~(np.abs(pred - mu) <= tol))
+        require(bad.size == 0, "big.export.predicts_fitted_values", lambda: "%d observations, step %d: the exported sample's predictions for %d training experiments (first: row %d) differ from the sampler's fitted values" % (n, step + 1, bad.size, int(bad[0])))
+    return {"nontrivial": True, "labels": ["big_model", "observations>=2^%d" % (n.bit_length() - 1)]}
+
+
 def check_case(case):
+    if case.get("kind") == "big_model":
+        return _check_big_model(case)
     import collections
 
     import numpy.random as npr
